@@ -3,9 +3,9 @@
 // property C16, violation key cc:ReadVarIntegerSlow:stale-after-empty-refill
 // ReadVarIntegerSlow<ReadVarU64>: load of 1 byte(s) at buffer offset 0 lies outside [data, buffer_end_ptr_): stale bytes are decoded after FillBuffer() delivered fewer bytes than the decoder consumes; call chain ReadVarIntegerSlow < ReadVarInt64 < h_ReadVarU64
 // spec: throw yardl::binary::EndOfStreamException
-// native observation (release build): ret 140772118642816 / drain c0c0c081800000000000000000000000002100000000000000baaa
+// native observation (release build): ret 0 / drain 82818481c0908181c0818181818184818181828181818181818181
 // debug build, same call twice: exit -6 (assertion)
-#define BAKED_ARGS {"R", "12", "0000000000000000000000008181818181a000c0c0c08180", "pre:23", "ReadVarU64", "drain"}
+#define BAKED_ARGS {"R", "32", "00000000000000000000000000000000000000000000000000000000000000000082818481c0908181c08181818181848181818281818181818181818181c080", "pre:63", "ReadVarU64", "drain"}
 // Native replay driver for coded_stream.h (real, unmodified header; public API only).
 //
 //   replay_kernels R <N> <hex stream bytes> <cmd>...     reader script
